@@ -49,8 +49,9 @@ Fixpoint mcount (f : nat -> bool) (n : nat) : nat :=
 Definition mactive (p : mpool) (c : nat) : nat := mcount (fun s => mlive p s && Nat.eqb (mscli p s) c) (mnstreams p).
 
 Definition mcan_create (k : mcfg) (p : mpool) : bool := (mk_max_req k =? 0) || (mreq p <? 0) || (mreq p <? mk_max_req k).
-Definition mreq_inc (k : mcfg) (p : mpool) : mpool := if mk_max_req k =? 0 then p else p <| mreq := mreq p + 1 |>.
-Definition mreq_dec (k : mcfg) (p : mpool) : mpool := if mk_max_req k =? 0 then p else p <| mreq := mreq p - 1 |>.
+(* Increase / Decrease always count (resource_manager.go since c8b45b4d7, pinned by Gen.PoolSrc poolres_src_counts_unlimited) *)
+Definition mreq_inc (k : mcfg) (p : mpool) : mpool := p <| mreq := mreq p + 1 |>.
+Definition mreq_dec (k : mcfg) (p : mpool) : mpool := p <| mreq := mreq p - 1 |>.
 
 Definition mset_client (p : mpool) (c : nat) (v : mclient) : mpool := p <| mcl := upd (mcl p) c v |>.
 
@@ -158,8 +159,7 @@ Definition mstep (k : mcfg) (p : mpool) (o : mop) : mpool * mres :=
     else (p, MRN)
   | MShutdown => (p <| mshut := true |>, MRN)
   | MExtReq inc =>
-    if mk_max_req k =? 0 then (p, MRN)
-    else if inc then (p <| mreq := mreq p + 1 |> <| mext := mext p + 1 |>, MRN)
+    if inc then (p <| mreq := mreq p + 1 |> <| mext := mext p + 1 |>, MRN)
     else if 0 <? mext p then (p <| mreq := mreq p - 1 |> <| mext := mext p - 1 |>, MRN)
     else (p, MRN)
   end.
